@@ -13,23 +13,28 @@ EXTENDS Scan
 
 IsBoundAlias(a) == Len(a.inp) = 1 /\ a.inp[1].k = "sb"
 \* does alias a match the segments g starting at position j
-MatchesAt(a, g, j) == ~IsBoundAlias(a) /\ j + Len(a.inp) - 1 <= Len(g) /\ \A i \in 1..Len(a.inp) : ElemMatch(a.inp[i], g[j + i - 1])
-FirstAlias(as, g, j) == LET S == { i \in 1..Len(as) : MatchesAt(as[i], g, j) } IN IF S = {} THEN 0 ELSE CHOOSE i \in S : \A k \in S : i <= k
-RECURSIVE RomSyl(_, _, _)
-RomSyl(as, g, j) ==
+\* an element may carry stress modifiers (`V:[+stress, -sec.stress]`): they are tested on the syllable the segment is in (Supra!MatchStr)
+SegFm(fm) == SelectSeq(fm, LAMBDA m : m[1] \in {"f", "n"})
+StressOK(fm, st) == \A i \in 1..Len(fm) : fm[i][1] = "s" =>
+                       (IF fm[i][2] = "stress" THEN (st # "U") = fm[i][3] ELSE IF fm[i][2] = "sec.stress" THEN (st = "S") = fm[i][3] ELSE TRUE)
+ElemMatchS(e, s, st) == ElemMatch([e EXCEPT !.fm = SegFm(e.fm)], s) /\ StressOK(e.fm, st)
+MatchesAt(a, g, j, st) == ~IsBoundAlias(a) /\ j + Len(a.inp) - 1 <= Len(g) /\ \A i \in 1..Len(a.inp) : ElemMatchS(a.inp[i], g[j + i - 1], st)
+FirstAlias(as, g, j, st) == LET S == { i \in 1..Len(as) : MatchesAt(as[i], g, j, st) } IN IF S = {} THEN 0 ELSE CHOOSE i \in S : \A k \in S : i <= k
+RECURSIVE RomSyl(_, _, _, _)
+RomSyl(as, g, j, st) ==
   IF j > Len(g) THEN <<>>
-  ELSE LET i == FirstAlias(as, g, j) IN
-       IF i = 0 THEN <<<<"g", g[j]>>>> \o RomSyl(as, g, j + 1)
+  ELSE LET i == FirstAlias(as, g, j, st) IN
+       IF i = 0 THEN <<<<"g", g[j]>>>> \o RomSyl(as, g, j + 1, st)
        ELSE LET a == as[i]  n == Len(a.inp) IN
             (IF a.plus THEN [x \in 1..n |-> <<"g", g[j + x - 1]>>] ELSE <<>>)
             \o (IF a.out = 0 THEN <<>> ELSE <<<<"r", a.out>>>>)
-            \o RomSyl(as, g, j + n)
+            \o RomSyl(as, g, j + n, st)
 BoundAlias(as) == LET S == { i \in 1..Len(as) : IsBoundAlias(as[i]) } IN IF S = {} THEN 0 ELSE CHOOSE i \in S : \A k \in S : i >= k     \* the last one wins
 Mark(w, i) == CASE w.s[i].st = "P" -> "P" [] w.s[i].st = "S" -> "S" [] OTHER -> IF i > 1 THEN "." ELSE ""
 RECURSIVE RomWord(_, _, _)
 RomWord(as, w, i) ==
   IF i > Len(w.s) THEN <<>>
-  ELSE LET m == Mark(w, i) IN (IF m = "" THEN <<>> ELSE <<<<"b", m>>>>) \o RomSyl(as, w.s[i].g, 1) \o RomWord(as, w, i + 1)
+  ELSE LET m == Mark(w, i) IN (IF m = "" THEN <<>> ELSE <<<<"b", m>>>>) \o RomSyl(as, w.s[i].g, 1, w.s[i].st) \o RomWord(as, w, i + 1)
 \* the boundary alias rewrites the marks of the finished text: a stress mark at the very beginning is dropped
 \* (when the replacement is not empty), every other mark becomes the replacement string (or disappears)
 Rebound(toks, b, as) ==
